@@ -557,6 +557,9 @@ pub struct VersionCase {
     version: u32,
     /// library version numbers written into the footer (irrelevant for compatibility)
     semver: (u8, u8, u8),
+    /// 0: `semver` as generated; 1: the running library's own major.minor.patch; 2: its major.minor with another patch
+    #[serde(default)]
+    own_semver: u8,
 }
 pub struct Versions;
 impl Sub for Versions {
@@ -570,12 +573,12 @@ impl Sub for Versions {
     fn strategy(&self, _tier: Tier) -> BoxedStrategy<VersionCase> {
         let index = (prop::collection::vec(1u8..5, 1..3), any::<bool>(), any::<u8>()).prop_map(|(commits, delete, salt)| IndexSpec { commits, delete, salt });
         let version = prop_oneof![4 => 0u32..12, 1 => any::<u32>(), 1 => Just(u32::MAX), 1 => Just(i32::MAX as u32)];
-        (index, any::<u16>(), version, (any::<u8>(), any::<u8>(), any::<u8>()))
-            .prop_map(|(index, file, version, semver)| VersionCase { index, file, version, semver })
+        (index, any::<u16>(), version, (any::<u8>(), any::<u8>(), any::<u8>()), prop_oneof![2 => Just(0u8), 2 => Just(1u8), 1 => Just(2u8)])
+            .prop_map(|(index, file, version, semver, own_semver)| VersionCase { index, file, version, semver, own_semver })
             .boxed()
     }
     fn mandatory_labels(&self, _t: Tier) -> Vec<&'static str> {
-        vec!["unsupported_low", "unsupported_high", "supported"]
+        vec!["unsupported_low", "unsupported_high", "supported", "footer_with_the_library_release"]
     }
     fn run(&self, c: &VersionCase, cx: &Ctx) -> CaseResult {
         let (dir, index) = build_small_index(&c.index)?;
@@ -584,9 +587,17 @@ impl Sub for Versions {
         files.sort();
         let fi = idx(c.file, files.len());
         let raw = dir.atomic_read(&files[fi]).or_fail("INFRA:read")?;
-        let Some((body_len, _)) = split_footer(&raw) else { fail!("no_footer", "{:?}", files[fi]) };
+        let Some((body_len, written)) = split_footer(&raw) else { fail!("no_footer", "{:?}", files[fi]) };
         let body = &raw[..body_len];
-        let footer = json!({"version": {"major": c.semver.0, "minor": c.semver.1, "patch": c.semver.2, "index_format_version": c.version}, "crc": crc(body)});
+        // the release numbers the running library writes itself
+        let own = |k: &str| written["version"][k].as_u64().unwrap_or(0) as u32;
+        let (major, minor, patch) = match c.own_semver {
+            0 => (c.semver.0 as u32, c.semver.1 as u32, c.semver.2 as u32),
+            1 => (own("major"), own("minor"), own("patch")),
+            _ => (own("major"), own("minor"), c.semver.2 as u32),
+        };
+        cx.label_if(c.own_semver > 0, "footer_with_the_library_release");
+        let footer = json!({"version": {"major": major, "minor": minor, "patch": patch, "index_format_version": c.version}, "crc": crc(body)});
         let fj = serde_json::to_vec(&footer).unwrap();
         let mut d = body.to_vec();
         d.extend_from_slice(&fj);
